@@ -23,6 +23,13 @@ def eval_call(ev: Ev, n: ast.Call) -> Val:
 	if c is not None and txt in c.rewrites and ev.rw:
 		ev.eng.used_rewrites.add(f'{ev.fn.label}: {txt}  ~>  {c.rewrites[txt]}')
 		return ev.eval(ast.parse(c.rewrites[txt], mode='eval').body)
+	if c is not None and c.rewrite_patterns and ev.rw:
+		import re as _re
+		for pat, repl in c.rewrite_patterns.items():
+			m = _re.fullmatch(pat, txt)
+			if m:
+				ev.eng.used_rewrites.add(f'{ev.fn.label}: {txt}  ~>  {m.expand(repl)}  (pattern)')
+				return ev.eval(ast.parse(m.expand(repl), mode='eval').body)
 	f = n.func
 	if isinstance(f, ast.Name):
 		name = f.id
